@@ -136,6 +136,57 @@ def build(d, g, shared=None):
     return out
 
 
+def build_default(d, g):
+    """like build, but child positions whose descriptor is a plain Count are left to the constructor's DEFAULT
+    argument (C06: constructor calls relying on default arguments must not share state)"""
+    import histogrammar as hg
+
+    plain = lambda c: c == {"k": "Count", "tr": "id"}  # noqa: E731
+    k = d["k"]
+    R = lambda c: build_default(c, g)  # noqa: E731
+
+    def kw(**children):
+        return {name: R(c) for name, c in children.items() if not plain(c)}
+
+    if k == "Bin":
+        return hg.Bin(d["num"], g.pos(d["lo"]), g.pos(d["hi"]), make_quantity(d),
+                      **kw(value=d["value"], underflow=d["under"], overflow=d["over"], nanflow=d["nan"]))
+    if k == "SparselyBin":
+        return hg.SparselyBin(g.width(d["width"]), make_quantity(d), origin=g.pos(d["origin"]), **kw(value=d["value"], nanflow=d["nan"]))
+    if k == "CentrallyBin":
+        return hg.CentrallyBin([g.pos(c) for c in d["centers"]], make_quantity(d), **kw(value=d["value"], nanflow=d["nan"]))
+    if k == "IrregularlyBin":
+        return hg.IrregularlyBin([g.pos(c) for c in d["edges"]], make_quantity(d), **kw(value=d["value"], nanflow=d["nan"]))
+    if k == "Stack":
+        return hg.Stack([g.pos(c) for c in d["thresholds"]], make_quantity(d), **kw(value=d["value"], nanflow=d["nan"]))
+    if k == "Categorize":
+        return hg.Categorize(make_quantity(d), **kw(value=d["value"]))
+    if k == "Fraction":
+        return hg.Fraction(make_quantity(d), **kw(value=d["value"]))
+    if k == "Select":
+        return hg.Select(make_quantity(d), **kw(cut=d["cut"]))
+    if k in ("Label", "UntypedLabel"):
+        return getattr(hg, k)(**{key: R(c) for key, c in d["pairs"].items()})
+    if k in ("Index", "Branch"):
+        return getattr(hg, k)(*[R(c) for c in d["vals"]])
+    return build(d, g)
+
+
+def check_exact(d, g):
+    """every structural parameter of d must be exactly representable under g (harness precondition)"""
+    from .desc import walk
+
+    for _, n in walk(d):
+        for key in ("lo", "hi", "origin"):
+            if key in n:
+                g.pos(n[key])
+        if "width" in n:
+            g.width(n["width"])
+        for key in ("centers", "edges", "thresholds"):
+            for c in n.get(key, []):
+                g.pos(c)
+
+
 # ---------------------------------------------------------------------------------------------
 # data
 
